@@ -202,17 +202,17 @@ Usage: ggqlgen [options] [<schema-file>...]
 			if err = root.Parse(sdl); err != nil {
 				log.Fatalf("Failed to parse file %s: %s", filepath, err)
 			}
-			for _, t := range root.Types() {
-				if t.Core() || exists[t.Name()] {
+			for _, t := range allDefs(root) {
+				if t.Core() || exists[defKey(t)] {
 					continue
 				}
 				if e != nil {
-					e.types[t.Name()] = true
+					e.types[defKey(t)] = true
 				}
 				if o != nil {
-					o.types[t.Name()] = true
+					o.types[defKey(t)] = true
 				}
-				exists[t.Name()] = true
+				exists[defKey(t)] = true
 			}
 		}
 	}
@@ -223,11 +223,11 @@ Usage: ggqlgen [options] [<schema-file>...]
 		buf = append(buf, "\n\nconst "...)
 		buf = append(buf, e.name...)
 		buf = append(buf, " = `"...)
-		for _, t := range root.Types() {
+		for _, t := range allDefs(root) {
 			if t.Core() {
 				continue
 			}
-			if e.types[t.Name()] {
+			if e.types[defKey(t)] {
 				buf = append(buf, '\n')
 				buf = append(buf, t.SDL(true)...)
 			}
@@ -248,11 +248,11 @@ Usage: ggqlgen [options] [<schema-file>...]
 	}
 	for _, o := range overs.overs {
 		var buf []byte
-		for _, t := range root.Types() {
+		for _, t := range allDefs(root) {
 			if t.Core() {
 				continue
 			}
-			if o.types[t.Name()] {
+			if o.types[defKey(t)] {
 				buf = append(buf, '\n')
 				buf = append(buf, t.SDL(true)...)
 			}
@@ -264,6 +264,26 @@ Usage: ggqlgen [options] [<schema-file>...]
 	if verbose {
 		fmt.Println(root.SDL(false, true))
 	}
+}
+
+// allDefs returns the types of the root followed by its directives, the
+// order Root.SDL() writes them in.
+func allDefs(root *ggql.Root) []ggql.Type {
+	types := root.Types()
+	dirs := root.Directives()
+	defs := make([]ggql.Type, 0, len(types)+len(dirs))
+	defs = append(defs, types...)
+
+	return append(defs, dirs...)
+}
+
+// defKey is the name a definition is tracked by. A directive and a type can
+// have the same name.
+func defKey(t ggql.Type) string {
+	if _, ok := t.(*ggql.Directive); ok {
+		return "@" + t.Name()
+	}
+	return t.Name()
 }
 
 // getSDL returns the sdl as a byte slice or an error. If the file path has a
